@@ -151,12 +151,83 @@ Definition shrink_ok (pre : dca) (cmd : dcmd) (err : bool) (post : dca) : bool :
   | _ => true
   end.
 
+(** unsuspend_within_entitlement: when a suspended child comes back, every certificate that was suspended is
+    either published again - carrying what it held, intersected with the issuing certificate and narrowed by its
+    limit, and lying within the child's entitlement of that moment - or it is removed; it is removed exactly when
+    it exceeds the entitlement or is about to expire. (Not "= entitlement x issuer": a certificate that holds
+    less than an entitlement that grew meanwhile comes back as it was, the child's next sync asks for more.) *)
+Definition unsuspend_class_ok (ent : N) (now : Z) (keys : list N) (dc dc' : dclass) : bool :=
+  forallb (fun k =>
+    match aget k (d_susp dc) with
+    | None => true
+    | Some sc =>
+        if (now + 86400 <? i_exp sc)%Z && subset (i_res sc) ent then
+          match cur_res dc, aget k (d_issued dc') with
+          | Some sg, Some c' =>
+              match apply_limit (i_limit sc) (inter sg (i_res sc)) with
+              | Some r => (i_res c' =? r) && subset (i_res c') ent && subset (i_res c') sg && negb (amem k (d_susp dc'))
+              | None => false
+              end
+          | _, _ => false
+          end
+        else negb (amem k (d_issued dc')) && negb (amem k (d_susp dc'))
+    end) keys.
+
+Definition unsuspend_ok (pre : dca) (cmd : dcmd) (err : bool) (post : dca) : bool :=
+  match cmd with
+  | XUnsuspend h now _ =>
+      match aget h (da_children pre) with
+      | None => err
+      | Some dch =>
+          if negb (ch_susp (dc_ch dch)) then true
+          else
+            (* refused only if a re-issue is impossible (no current key / limit no longer fits) *)
+            if err then
+              existsb (fun '(c, dc) =>
+                existsb (fun k => match aget k (d_susp dc) with
+                                  | Some sc => (now + 86400 <? i_exp sc)%Z && subset (i_res sc) (dc_ent dch)
+                                               && match cur_res dc with
+                                                  | Some sg => match apply_limit (i_limit sc) (inter sg (i_res sc)) with Some _ => false | None => true end
+                                                  | None => true
+                                                  end
+                                  | None => false
+                                  end) (child_issued (dc_ch dch) c)) (da_classes pre)
+            else
+              forallb (fun '(c, dc) =>
+                match aget c (da_classes post) with
+                | Some dc' => unsuspend_class_ok (dc_ent dch) now (child_issued (dc_ch dch) c) dc dc'
+                | None => false
+                end) (da_classes pre)
+              && match aget h (da_children post) with Some dch' => negb (ch_susp (dc_ch dch')) | None => false end
+      end
+  | _ => true
+  end.
+
+(** activation: under the new key every issued certificate carries what it had intersected with the new key's
+    certificate, or is gone if that is nothing; the new key is the current one *)
+Definition activate_ok (pre : dca) (cmd : dcmd) (err : bool) (post : dca) : bool :=
+  match cmd with
+  | XActivate _ =>
+      if err then true
+      else forallb (fun '(c, dc) =>
+             match d_keys dc, aget c (da_classes post) with
+             | KRollNew n _, Some dc' =>
+                 shrunk_map_ok (c_res (k_cert n)) (d_issued dc) (d_issued dc')
+                 && shrunk_map_ok (c_res (k_cert n)) (d_susp dc) (d_susp dc')
+                 && match cur_res dc' with Some r => r =? c_res (k_cert n) | None => false end
+             | KRollNew _ _, None => false
+             | _, _ => true
+             end) (da_classes pre)
+  | _ => true
+  end.
+
 Definition opt_class_ok (o : option dclass) : bool := match o with Some dc => over_class dc | None => true end.
 
 Definition c02_ok (c : xcase) : bool :=
   match c with
   | CCmd pre cmd err post pub =>
       over_ok post && roas_ok post && pub_ok post pub && certify_ok pre cmd err post && shrink_ok pre cmd err post
+      && unsuspend_ok pre cmd err post && activate_ok pre cmd err post
   | CSync _ _ _ _ _ post _ => opt_class_ok (st_pc post) && opt_class_ok (st_xc post)
   | CSettle pairs rounds bound extra =>
       forallb (fun '(pcn, s) => settledb pcn s) pairs && (rounds <=? bound) && (extra =? 0)
